@@ -60,7 +60,9 @@ R.loop("Node.stop", 0,       # for conn in self.connections.values(): DPR to the
        hints=["own_generator(self, self.connections[cur])"],
        modifies=["*MsgQueue.g_put", "*PeerConnection.state", "*SequenceGenerator._sequence"])
 R.loop("Node.stop", 1,       # wait loop: the I/O thread removes connections meanwhile (environment)
-       invariants=[("stopping", "self._stopping and not force")],
+       invariants=[("stopping", "self._stopping and not force"),
+                   ("deadline-is-the-start-of-the-wait-plus-the-timeout", "wait_until >= old(clock()) + wait_timeout")],
+       step_brk=[("the-wait-is-abandoned-only-at-the-deadline", "clock() >= old(clock()) + wait_timeout")],
        modifies=["dict:self.connections", "*PeerConnection.state", "*Socket.closed"],
        local_kinds={"abort_wait": "bool"})
 R.loop("Node.stop", 2, invariants=[("t", "True")])
@@ -91,3 +93,14 @@ _sl.ensures.append(_Clause("clean-close-only-after-the-dpa",
     "old(wconn(self, wsock)).g_close_reason == %d, old(wconn(self, wsock).state) == %d)" % (R_CLEAN, CLOSING)))
 if "C18" not in _sl.props:
     _sl.props.append("C18")
+
+
+def _monotonic(ex, st, args, kwargs, k, where):
+    """time.monotonic(): a clock unrelated to time.time() (an arbitrary real)"""
+    from pyvc.values import VFloat
+    from pyvc.smt import REAL
+    return k(st, VFloat(ex.arbitrary(REAL, "monotonic")))
+
+
+from pyvc import models as _m3
+_m3.EXT["time.monotonic"] = _monotonic
